@@ -397,7 +397,50 @@ func (in *Interp) isNoReturn(call *ast.CallExpr) bool {
 }
 
 func (in *Interp) execIf(x *ast.IfStmt, st *State) []*State {
-	cond := in.eval(st, x.Cond)
+	// `if helper(..)` / `if !helper(..)` with a new helper whose returning paths differ: one
+	// successor per helper path, the condition being what that path returns
+	if in.Inline != nil {
+		ce, neg := unparen(x.Cond), false
+		if u, ok := ce.(*ast.UnaryExpr); ok && u.Op == token.NOT {
+			ce, neg = unparen(u.X), true
+		}
+		if call, ok := ce.(*ast.CallExpr); ok {
+			if callee := in.C.Callee(call); callee != nil && in.Inline(callee) {
+				base := st.Clone()
+				in.forkCall, in.forked = call, nil
+				t := in.eval(st, ce)
+				forked := in.forked
+				in.forkCall, in.forked = nil, nil
+				if forked == nil {
+					if neg {
+						t = notT(t)
+					}
+					return in.execIfWith(x, st, t)
+				}
+				var out []*State
+				for _, r := range forked {
+					if len(r.Ret) != 1 {
+						continue
+					}
+					ns := base.Clone()
+					ns.Mem, ns.Eff, ns.X, ns.Conds = r.Mem, r.Eff, r.X, r.Conds
+					for k, v := range r.Flags {
+						ns.Flags[k] = v
+					}
+					ct := r.Ret[0]
+					if neg {
+						ct = notT(ct)
+					}
+					out = append(out, in.execIfWith(x, ns, ct)...)
+				}
+				return out
+			}
+		}
+	}
+	return in.execIfWith(x, st, in.eval(st, x.Cond))
+}
+
+func (in *Interp) execIfWith(x *ast.IfStmt, st *State, cond *T) []*State {
 	known, val := false, false
 	var rT, rF func(*State)
 	if cond.Op == "const" && (cond.Name == "true" || cond.Name == "false") {
